@@ -9,7 +9,10 @@ KNOWN = os.path.join(VERIF, "KNOWN_FINDINGS.txt")
 
 ASAN_BASE = ("abort_on_error=1:handle_abort=0:handle_segv=0:handle_sigbus=0:handle_sigfpe=0:handle_sigill=0:"
              "halt_on_error=0:detect_leaks=0:allocator_may_return_null=1:detect_stack_use_after_return=0:"
-             "max_malloc_fill_size=4096:malloc_fill_byte=203:symbolize=1:print_summary=0:detect_odr_violation=0")
+             "max_malloc_fill_size=4096:malloc_fill_byte=203:symbolize=1:print_summary=0:detect_odr_violation=0:"
+             # the library recurses (tree put/remove/free): with the default 30-frame allocation contexts the number of
+             # distinct stacks - and with it ASan's stack depot - grows without bound over a long campaign
+             "malloc_context_size=6")
 UBSAN_BASE = "halt_on_error=0:print_stacktrace=0:print_summary=0"
 
 
